@@ -259,6 +259,32 @@ def run(ctx):
     ctx.obligations.append(("coverage: every node class found by introspection occurs in a pickled manager and is known to the translator",
                             not unknown and not missing_cls, f"unknown={unknown} not exercised={missing_cls}"))
 
+    # second stream: managers with NESTED targets (index multiplicities > 1), pickled after a history
+    import mgr_common as mc
+    ncases = []
+    for i in range(ctx.pick(120, 2500)):
+        c = mc.gen_history(ctx.rng, ["assign", "mixed", "dag"][i % 3], nofun=True)
+        lv = mc.leaves_of(c)
+        c["ops"].append(["picklecheck", [[ctx.rng.choice(lv), ctx.rng.randint(-9, 9)] for _ in range(4)]])
+        ncases.append(c)
+    nested_fail = []
+    for b in ("compiled", "pure"):
+        nobs = mc.run_impl_cases(ncases, build=b)
+        for i, ol in enumerate(nobs):
+            pr = (ol[-1].get("pickle") or {}).get("problems")
+            if pr:
+                nested_fail.append((i, b, pr))
+        ctx.evaluations += sum(len(c["ops"]) for c in ncases)
+        ctx.traces += len(ncases)
+    ctx.obligations.append(("oracle (nested targets): the unpickled manager has the same dump, the same four indices WITH multiplicities, "
+                            "passes verify, reacts identically to follow-up assignments and shares nothing (both builds)",
+                            not nested_fail, f"{len(nested_fail)} failing of {2 * len(ncases)}"))
+    if nested_fail and not oracle_fail:
+        i, b, pr = nested_fail[0]
+        vlib.violation(ctx, {"kind": "oracle", "what": "the restored manager is not an independent, behaviourally identical copy",
+                             "build": b, "mgr_case": ncases[i], "problems": pr, "how_to_replay": "./check C12 --replay <this file>"})
+        return
+
     if oracle_fail:
         i, b = oracle_fail[0]
         small = shrink(cases[i], ids, b)
@@ -293,6 +319,14 @@ def run(ctx):
 
 def replay(ctx, data):
     classes, fns, _ = rs.ids()
+    if data.get("mgr_case"):
+        import mgr_common as mc
+        o = mc.run_impl_cases([data["mgr_case"]], build=data.get("build", "compiled"))[0][-1]
+        pr = (o.get("pickle") or {}).get("problems")
+        print(json.dumps(pr))
+        if pr:
+            print("VIOLATION property=C12 replay=(given): " + "; ".join(pr)); return 1
+        print("replay: the restored manager is an independent, identical copy on this case"); return 0
     case = data.get("case")
     if not case:
         print("replay file names a broken theorem/correspondence, no concrete input:", json.dumps(data.get("no_longer_checks"), indent=1))
